@@ -21,6 +21,7 @@ RECURSIVE Str(_)
 Str(p) == IF p = <<>> THEN "" ELSE p[1] \o Str(Tail(p))   \* pipes as strings of ids
 Rep(s, n) == [i \in 1..n |-> s[((i - 1) % Len(s)) + 1]]
 LongPipes == {Rep(s, n) : s \in {<<"g">>, <<"m">>, <<"g", "m">>, <<"m", "G", "g">>}, n \in {5, 16, 255}}
+WirePipes == {Rep(s, n) : s \in {<<"m">>, <<"g", "m">>}, n \in {254, 255}}
 TooLong   == {Rep(<<"g">>, 256), Rep(<<"m", "g">>, 256)}
 WithUnreg == {<<"?">>, <<"g", "?">>, <<"?", "m">>, <<"m", "?", "g">>}
 
@@ -32,6 +33,9 @@ Cases ==
            p \in {q \in SeqsUpTo(3) : Len(q) >= 1 /\ q[1] = "m"}, d \in {"empty", "b1", "rand200"}}
   \cup {[fam |-> "xfer", kind |-> "wire", proto |-> pr, pipe |-> Str(p), payload |-> d, expect |-> "roundtrip"] :
            pr \in {"raw", "json", "pb", "thriftbin"}, p \in SeqsUpTo(2), d \in {"empty", "b1", "rand4k"}}
+  \* pipes of the maximum documented length (and one below) through the wire protocols whose frame carries the pipe length in one byte
+  \cup {[fam |-> "xfer", kind |-> "wire", proto |-> pr, pipe |-> Str(p), payload |-> "b1", expect |-> "roundtrip"] :
+           pr \in {"raw", "json"}, p \in WirePipes}
   \cup {[fam |-> "xfer", kind |-> "wireunreg", proto |-> pr, pipe |-> "g", payload |-> "b1", expect |-> "refused"] : pr \in {"raw", "json"}}
   \* a frame whose payload is packed with the registered filters only, while its header also names an unregistered one
   \* ("?" = the unregistered id): it must be refused, not decoded with the filters that happen to be known
